@@ -19,6 +19,8 @@ pub trait Sc:
     fn of(v: f64) -> Self;
     fn f(self) -> f64;
     fn bits(self) -> u64;
+    /// largest finite value of the type, as f64
+    fn huge() -> f64;
 }
 
 impl Sc for f64 {
@@ -35,6 +37,9 @@ impl Sc for f64 {
     fn bits(self) -> u64 {
         self.to_bits()
     }
+    fn huge() -> f64 {
+        f64::MAX
+    }
 }
 
 impl Sc for f32 {
@@ -50,6 +55,9 @@ impl Sc for f32 {
     }
     fn bits(self) -> u64 {
         self.to_bits() as u64
+    }
+    fn huge() -> f64 {
+        f32::MAX as f64
     }
 }
 
